@@ -115,3 +115,22 @@ func (w *world) Invoke(contract common.Address, method string, args []byte, sign
 	_, err, _ := w.invoke(&call{contract, method, args, signers, height, time})
 	return err
 }
+
+// GlobalParam decodes the stored GlobalParam record.
+func (w *world) GlobalParam() (*gov.GlobalParam, error) {
+	for _, e := range w.raw(govC, []byte(gov.GLOBAL_PARAM)) {
+		if len(e[0]) != len(gov.GLOBAL_PARAM) {
+			continue
+		}
+		val, err := rawValue(e[1])
+		if err != nil {
+			return nil, err
+		}
+		gp := new(gov.GlobalParam)
+		if err := gp.Deserialization(common.NewZeroCopySource(val)); err != nil {
+			return nil, err
+		}
+		return gp, nil
+	}
+	return nil, fmt.Errorf("no GlobalParam record")
+}
